@@ -42,10 +42,10 @@ const (
 
 type effPath struct {
 	tpop, tpush, spop, spush int
-	exit                    int // -1: not yet decided
-	flags                   int
-	cmin, cmax, cpop        int
-	cloop                   bool
+	exit                     int // -1: not yet decided
+	flags                    int
+	cmin, cmax, cpop         int
+	cloop                    bool
 }
 
 func (p effPath) crawlCode() int {
